@@ -24,7 +24,8 @@ type feat struct {
 	stateShapes    bool
 	memoShapes     bool
 	stcW           int
-	wild           bool // budgeted "anything goes": no constructive restrictions
+	wild           bool    // budgeted "anything goes": no constructive restrictions
+	tupBias        float64 // probability that an action returns the tuple of its arguments
 }
 
 // caseGen builds one case.
@@ -42,6 +43,7 @@ type caseGen struct {
 	refd     []bool
 	chCount  int
 	blocks   []*pvcase.Block
+	inputSrc string
 }
 
 type ectx struct {
